@@ -161,6 +161,18 @@ func (e *SpecEnv) evalBool(ex SExpr) string {
 }
 
 func (e *SpecEnv) lookupType(name string) types.Type {
+	if strings.HasPrefix(name, "*") {
+		if t := e.lookupType(name[1:]); t != nil {
+			return types.NewPointer(t)
+		}
+		return nil
+	}
+	if strings.HasPrefix(name, "[]") {
+		if t := e.lookupType(name[2:]); t != nil {
+			return types.NewSlice(t)
+		}
+		return nil
+	}
 	switch name {
 	case "int":
 		return types.Typ[types.Int]
